@@ -174,6 +174,11 @@ Definition seg_edit (e : sedit) : wedit := (segment (fst e), snd e).
 Definition seg_ins (en : sins) : wins_entry := match en with (p, n, es) => (p, n, map seg_edit es) end.
 Definition seg_rep (en : srep) : wrep_entry := match en with (p, c, n, es) => (p, c, n, map seg_edit es) end.
 
+(** the configuration [edit_word] gets with a character dictionary: all four kinds *)
+Definition spell_cfg_of (fd : bool) (it : list sins) (rt : list srep) : wcfg :=
+  {| wk_ins := true; wk_del := true; wk_rep := true; wk_swap := true; wfull_del := fd;
+     witab := map seg_ins it; wrtab := map seg_rep rt |}.
+
 (** lookups on the string tables *)
 Fixpoint sins_lookup (t : list sins) (p n : str) : option (list sedit) :=
   match t with
